@@ -62,6 +62,22 @@ CLAIMS["C06"] = dict(
   technique="effect (who-may-call) analysis over the call graph + edge dominance of containment checks + create/clean-up pairing",
   ref="DESIGN.md §3 C06")
 
+CLAIMS["C04"] = dict(
+  text="All-paths rules over the view construction: a node enters a chain layer's tree only if that tree has nothing at the path and the ancestor scan said 'not hidden'; layers are processed newest first into chainLayers[i:]; the ancestor scan answers 'hidden' for whited-out and for non-directory ancestors (IsDir), keeps climbing over missing ancestors and says 'not hidden' only at the root; whiteouts are never listed by ReadDir and fail Stat/Read/ReadAt/Seek with ErrNotExist before the file is touched; the requirer restriction only removes rejected nodes; a tar entry is dropped only for the sanctioned reasons (so whiteouts are never filtered by the requirer); nodes shared between views are immutable. Level 'other': necessary conditions of the overlay semantics for every layer sequence; opaque whiteouts (not implemented by the code), intra-layer entry order, content equality and equivalence with the squashed unpacking are not decided.",
+  note="Trusted: go/ssa; pathtree Get/Insert/Remove contracts.",
+  technique="edge dominance + must-pass-through + sanctioned-skip-edge enumeration on SSA",
+  ref="DESIGN.md §3 C04")
+CLAIMS["C05"] = dict(
+  text="Structure of the attribution algorithm: the per-layer details list takes Index, DiffID and Command from the same chain layer and packages only ever get (a copy of) an element of that list; the extraction cache is keyed by (first location, view index) and written in one place; an iteration of the backward scan can return to the loop head without comparing packages only through the sanctioned 'file not in this layer' edge, otherwise it records the view as the latest scanned one after obtaining its packages; the origin is the latest scanned layer, or the first when no absence was found; the scan runs from len-2 down to 0; ScanContainer scans the last view and traces with the same chain layers. Level 'other': necessary structural conditions; validity of the skip for every history and empty-layer alignment are not decided.",
+  note="Trusted: go/ssa loop/phi structure; the sanctioned skip is the filesExistInLayer false edge.",
+  technique="loop-carried phi provenance (back-edge classification) + edge dominance on SSA",
+  ref="DESIGN.md §3 C05")
+CLAIMS["C17"] = dict(
+  text="Termination variant and resolution discipline: the resolver's only cycle passes a loop head that returns a depth error when the hop budget is below zero, and every back edge decreases the budget by a positive constant (so at most max+1 iterations for every symlink graph); Open/Stat/ReadDir resolve the node looked up for the requested name through that resolver with the view's configured depth and answer from the resolved node; the success exit returns the current non-symlink node, a failed lookup returns its error, the cycle error needs pointer equality with the slow pointer; symlink nodes are created only when TargetOutsideRoot(virtual path, raw link name) is false; shared nodes are immutable, so resolution in one view cannot change another's. Level 'other': the hop-count/cycle classification as values is not decided.",
+  note="Trusted: go/ssa; symlink.TargetOutsideRoot's own lexical semantics.",
+  technique="loop variant (phi step) analysis + edge dominance + who-may-write rule for node fields",
+  ref="DESIGN.md §3 C17")
+
 NA = {}
 
 
